@@ -5,6 +5,12 @@ import ChibiVerif.Model.Linkage
 
 namespace ChibiVerif.Linkage
 
+/-- evaluate a check on the result of a parse (for `decide`d examples and findings) -/
+def holdsOn {ε α : Type} (r : Except ε α) (p : α → Bool) : Bool :=
+  match r with
+  | .ok a => p a
+  | .error _ => false
+
 /-! ### the graph an `Obj` list denotes -/
 
 /-- `find_func(f) != NULL` -/
